@@ -1,5 +1,6 @@
 import PyhmsVerif.Model.Proto
 import PyhmsVerif.Model.Tree
+import PyhmsVerif.Model.Report
 /-!
 Line protocol for whole-run traces (parsers and the canonical state dump).
 Only used by `Driver.lean`.
@@ -179,10 +180,16 @@ def dumpDeme (cfg : Cfg) (full : Bool) (d : Deme) : String :=
     head ++ " hist " ++ " / ".intercalate (d.hist.map fun m => " ; ".intercalate (m.map fun g => showList showInd g.inds))
   else head
 
+def dumpReport (t : T) : String :=
+  let s := Report.summary t
+  let lv := " ".intercalate (s.perLevel.map fun p => match p with | some p => s!"{p.1}/{p.2}" | none => "-")
+  let ls := " ".intercalate ((Report.lines t).map fun l => s!"{showId l.id}:{l.cls}:{l.evals}:{showBool l.marker}")
+  s!"R {s.metaepoch} {s.evals} {s.demes} levels {lv} lines {ls}"
+
 def dump (t : T) (full : Bool) : String :=
   let lv := " ".intercalate (t.levels.map fun l => "[" ++ ",".intercalate (l.map showId) ++ "]")
   let head := s!"T {t.metaepoch} evals {t.nEvals} levels {lv} best {showOptInd t.best} invocations {t.log.length}"
-  " | ".intercalate (head :: t.demes.map (dumpDeme t.cfg full))
+  " | ".intercalate (head :: t.demes.map (dumpDeme t.cfg full) ++ [dumpReport t])
 
 def dumpStages (tr : List (List Sprout.Cand)) : String :=
   " || ".intercalate (tr.map fun cs => " ; ".intercalate (cs.map fun c =>
